@@ -14,7 +14,7 @@ git -C /repo worktree remove --force $wt
 python3 - <<PY
 import json
 p="/verif/seeded/$name/meta.json"; m=json.load(open(p))
-m.setdefault("checks",{})["$tier"]={"cmd":"VERIF_REPO=<worktree with patch> /verif/bin/vcheck $id --tier $tier","exit":$code,"detected":$code==1,
+m.setdefault("checks",{})["$id/$tier"]={"cmd":"VERIF_REPO=<worktree with patch> /verif/bin/vcheck $id --tier $tier","exit":$code,"detected":$code==1,
   "violations":[l.strip() for l in open("$log") if l.startswith("  harness=")][:6]}
 json.dump(m,open(p,"w"),indent=1)
 PY
